@@ -11,20 +11,34 @@ Per generated VCF the REAL CLI `whatshap stats --tsv --block-list --gtf [--only-
   * correspondence: every TSV field (medians/averages/fractions recomputed from the model's sorted lists), the block list
     and the GTF equal the Lean model of the repaired code; if not, the faithful model of HEAD decides whether the
     difference is the known defect F5 (missing genotype counted heterozygous) / F5b (PS value '.' -> block None).
+  * the whole of `run_stats` is inside the model (`c12.run`): `unpack_chromosomes`, plain iteration vs indexed fetch in the
+    given order (40 % of the sorted files are bgzipped + tabix-indexed), `--chromosome` filter, early exit, seen set, presence
+    of the ALL row, NG50 from header lengths or `--chr-lengths` (missing length -> nan).  Which chromosomes must be reported
+    is also computed independently (the distinct wanted chromosomes of the file, once each).
+  * stdout report: the integer lines of every section equal the TSV row of the same chromosome.
+  * in-process: `n50`, `unpack_chromosomes`, `parse_chr_lengths`+`compute_ng50` on random inputs vs the model and vs the
+    defining property of N50 (the `n50_spec` theorem), evaluated in Python.
 """
 import concurrent.futures, json, math, os, re, shutil, statistics
+
+import pysam
 
 from harness.gen import sim
 from harness.gen import c12_vcf as G
 
-RULE = ("case = one generated VCF of one ploidy (2-4), 1-3 chromosomes, 1-3 samples, PS or HP phasing, up to 24*scale records "
-        "per chromosome (SNV/indel/MNP/multi-ALT/no-ALT, duplicated positions, rarely unsorted), calls het/hom/missing/partial, "
-        "phased into 0-4 interleaved or contiguous phase sets per chromosome, phased calls without PS key or PS value, run with "
-        "random --only-snvs / --chromosome / --sample; non-trivial iff stats succeeded and some processed chromosome has a "
-        "block of >= 2 variants; distinct = distinct (file text, options)")
+RULE = ("case = one generated VCF of one ploidy (1-6), 1-4 chromosomes, 1-3 samples, PS or HP phasing (per chromosome), up to "
+        "24*scale records per chromosome (SNV/indel/MNP/multi-ALT/no-ALT/'*'/<DEL>/ALT=REF, duplicated positions, rarely "
+        "unsorted), calls het/hom/missing/partial, phased into 0-4 interleaved or contiguous phase sets per chromosome, phased "
+        "calls without PS key or PS value, header contigs with or without length, optional --chr-lengths file, plain or "
+        "bgzipped+tabix-indexed, run with random --only-snvs / --chromosome (comma lists, repeated, unknown, empty names) / "
+        "--sample; plus in-process calls of n50 / compute_ng50 / unpack_chromosomes on small random arguments; non-trivial iff "
+        "stats succeeded and some processed chromosome has a block of >= 2 variants; distinct = distinct (file text, options)")
 MANIFEST = dict(
-    text="Lean 4 theorems about a model of stats.py (reader filters, call classification, block building, the "
-         "pop/split/re-sort loop with explicit fuel, aggregation, block list): phased+unphased+singletons = heterozygous, "
+    text="Lean 4 theorems about a model of stats.py from the data lines to every output row (reader filters, call "
+         "classification, block building, the pop/split/re-sort loop with explicit fuel, the chromosome loop of run_stats "
+         "with --chromosome filter / early exit / indexed fetch, aggregation, block list, GTF, NG50): the reader delivers the "
+         "first eligible record of every position, every row counts exactly those records, the early exit loses no wanted "
+         "chromosome, GTF features = maximal runs, block_n50 = N50 of the reported lengths, phased+unphased+singletons = heterozygous, "
          "block sizes sum to phased, block list exact (one row per phase set, true min/max/size), non-overlapping pieces are "
          "pairwise disjoint, the loop terminates within the stated measure, their length sum <= covered span, the ALL row is "
          "the sum of the chromosome rows for the additive columns, counts = independent counts (repaired code). Tied to the "
@@ -33,13 +47,16 @@ MANIFEST = dict(
     design_ref="DESIGN.md §5 C12",
     note="trusted: Lean kernel, axioms ⊆ {propext, Classical.choice, Quot.sound}; hand-written model; htslib/pysam parsing; "
          "MixedPhasingError / PloidyError (consistency over all samples) are outside the model, inputs are of one ploidy and one "
-         "phasing kind; medians, averages, fractions and NG50 are not additive and are only compared with the model",
+         "phasing kind per chromosome; medians, averages and fractions are only compared with the model (recomputed from its "
+         "sorted lists); the float comparison in n50 is modelled over the integers",
     technique="Lean 4 model + counting/partition lemmas + invariant proof of the splitting loop + CLI differential run with oracle",
 )
 ASSUMPTIONS = [
     "one consistent ploidy and one phasing encoding (PS or HP) per file, HP fields match the ploidy (else the reader raises "
     "PloidyError / MixedPhasingError / IndexError before stats sees anything)",
-    "chromosomes are contiguous in the file; contig lengths are declared in the header",
+    "chromosomes are contiguous in the file; every contig with records is declared in the header (lengths optional)",
+    "ALT differs from REF (a record with ALT = REF passes the reader's --only-snvs length test but is no SNV for is_snv(); "
+    "such chromosomes are only compared with the model under --only-snvs)",
 ]
 WORKERS = 6
 INT_FIELDS = ["variants", "phased", "unphased", "singletons", "blocks", "variant_per_block_sum", "bp_per_block_sum",
@@ -48,7 +65,7 @@ INT_FIELDS = ["variants", "phased", "unphased", "singletons", "blocks", "variant
 
 def err_class(stderr):
     for line in stderr.strip().splitlines()[::-1]:
-        m = re.match(r"^(?:\w+\.)*(\w+(?:Error|Exception))\b", line.strip())
+        m = re.match(r"^(?:\w+\.)*(\w+(?:Error|Exception)|VcfInvalidChromosome)\b", line.strip())
         if m:
             return m.group(1)
     return "unknown"
@@ -58,21 +75,40 @@ def sample_index(case):
     return case["samples"].index(case["sample"]) if case["sample"] else 0
 
 
-def wanted_chromosomes(case):
-    given = [c for e in case["chromosomes"] for c in e.split(",") if c]
+def file_chromosomes(case):
     in_file = []
     for r in case["records"]:
         if r["chrom"] not in in_file:
             in_file.append(r["chrom"])
-    seen, processed = [], []
-    for c in in_file:
-        seen.append(c)
-        if given and c not in given:
-            continue
-        processed.append(c)
-        if given and set(given) <= set(seen):
-            break
-    return processed, seen
+    return in_file
+
+
+def given_chromosomes(case):
+    return [c for e in case["chromosomes"] for c in e.split(",") if c]
+
+
+def expected_chromosomes(case):
+    """independent: the chromosomes that must be reported — the distinct chromosomes of the file (for an indexed file: of
+    the header) that were asked for, each once; None if an indexed fetch of an unknown contig must be rejected"""
+    given, in_file = given_chromosomes(case), file_chromosomes(case)
+    if not given:
+        return in_file
+    if case.get("indexed"):
+        if any(c not in case["contigs"] for c in given):
+            return None
+        out = []
+        for c in given:
+            if c not in out:
+                out.append(c)
+        return out
+    return [c for c in in_file if c in given]
+
+
+def chr_lengths_of(case):
+    """the chr_lengths dict in insertion order as [[name, len]]: --chr-lengths file if given, else the header"""
+    if case.get("chr_lengths") is not None:
+        return [[n, l] for n, l in case["chr_lengths"]]
+    return [[n, l] for n, l in case["contigs"].items() if l is not None]
 
 
 def parse_gt(s):
@@ -96,9 +132,11 @@ def model_recs(case, chrom):
     return out
 
 
-def model_request(case, processed, fix_missing, fix_ps):
-    return {"op": "c12.stats", "fixMissing": fix_missing, "fixPs": fix_ps, "onlySnvs": case["only_snvs"], "blockList": True,
-            "chroms": [{"length": case["contigs"][c], "recs": model_recs(case, c)} for c in processed]}
+def model_request(case, fix_missing=True, fix_ps=True, dedup_given=False):
+    return {"op": "c12.run", "fixMissing": fix_missing, "fixPs": fix_ps, "dedupGiven": dedup_given,
+            "onlySnvs": case["only_snvs"], "blockList": True, "indexed": bool(case.get("indexed")),
+            "contigs": list(case["contigs"]), "lens": chr_lengths_of(case), "given": list(case["chromosomes"]),
+            "file": [{"name": c, "recs": model_recs(case, c)} for c in file_chromosomes(case)]}
 
 
 # ------------------------------------------------------------------------------------------------
@@ -110,11 +148,12 @@ def spec_chrom(case, chrom):
     si = sample_index(case)
     variants = het = het_snvs = unphased = 0
     sets = {}          # id -> list of (pos0, is_snv)
+    runs = []          # maximal runs of consecutive phased heterozygous calls of one phase set: [first pos1, last pos1, id]
     prev = None
     for r in case["records"]:
         if r["chrom"] != chrom or len(r["alts"]) != 1:
             continue
-        is_snv = len(r["ref"]) == 1 and len(r["alts"][0]) == 1
+        is_snv = len(r["ref"]) == 1 and len(r["alts"][0]) == 1 and r["ref"] != r["alts"][0]
         if case["only_snvs"] and not is_snv:
             continue
         pos = r["pos"] - 1
@@ -139,6 +178,10 @@ def spec_chrom(case, chrom):
             unphased += 1
             continue
         sets.setdefault(sid, []).append((pos, is_snv))
+        if runs and runs[-1][2] == sid:
+            runs[-1][1] = pos + 1
+        else:
+            runs.append([pos + 1, pos + 1, sid])
     big = {k: v for k, v in sets.items() if len(v) > 1}
     intervals = sorted((min(p for p, _ in v), max(p for p, _ in v)) for v in big.values())
     union, cur = 0, None
@@ -155,7 +198,7 @@ def spec_chrom(case, chrom):
             "phased": sum(len(v) for v in big.values()), "singletons": sum(1 for v in sets.values() if len(v) == 1),
             "blocks": len(big), "phased_snvs": sum(s for v in big.values() for _, s in v),
             "block_list": sorted((k, min(p for p, _ in v) + 1, max(p for p, _ in v) + 1, len(v)) for k, v in sets.items()),
-            "union_span": union}
+            "union_span": union, "gtf": runs}
 
 
 def parse_tsv(path):
@@ -218,41 +261,67 @@ def expected_row(m):
     return e
 
 
-def observables(res, processed):
-    """what the implementation reported, canonicalised: (rows per chromosome + ALL, block list, gtf)"""
-    rows = {r["chromosome"]: r for r in res["tsv"]}
-    return rows, res["bl"], res["gtf"]
-
-
-def diff_model(model, res, processed):
+def diff_model(model, res):
     """first difference between the model's answer and the implementation's files, or None"""
-    rows, bl, gtf = observables(res, processed)
     if "err" in model:
         return "model: " + model["err"]
-    for c, mc in zip(processed, model["chroms"]):
-        if c not in rows:
-            return f"no TSV row for {c}"
+    rows = [r for r in res["tsv"] if r["chromosome"] != "ALL"]
+    alls = [r for r in res["tsv"] if r["chromosome"] == "ALL"]
+    names = [r["chromosome"] for r in rows]
+    if names != [mc["name"] for mc in model["chroms"]]:
+        return f"chromosome rows {names}, model {[mc['name'] for mc in model['chroms']]}"
+    for r, mc in zip(rows, model["chroms"]):
+        c = mc["name"]
         exp = expected_row(mc["row"])
         for k, v in exp.items():
-            if not same(fnum(rows[c][k]), float(v)):
-                return f"{c}.{k}: tsv {rows[c][k]} model {v}"
-        mbl = [tuple(x) for x in (mc["blockList"] or [])]
-        if mbl != (bl.get(c, [])):
-            return f"{c} block list: file {bl.get(c, [])} model {mbl}"
-        if mc["gtf"] != gtf.get(c, []):
-            return f"{c} gtf: file {gtf.get(c, [])} model {mc['gtf']}"
-    if "ALL" in rows:
+            if not same(fnum(r[k]), float(v)):
+                return f"{c}.{k}: tsv {r[k]} model {v}"
+    # block list and GTF: the rows of one chromosome are written in one go; a chromosome processed twice is written twice
+    for what, got in (("blockList", res["bl"]), ("gtf", res["gtf"])):
+        exp = {}
+        for mc in model["chroms"]:
+            exp.setdefault(mc["name"], []).extend([list(x) for x in (mc[what] or [])])
+        exp = {c: v for c, v in exp.items() if v}
+        got = {c: [list(x) for x in v] for c, v in got.items()}
+        if got != exp:
+            return f"{what}: file {got} model {exp}"
+    if (model["all"] is not None) != (len(alls) == 1) or len(alls) > 1:
+        return f"ALL rows in the tsv: {len(alls)}, model: {'one' if model['all'] is not None else 'none'} (seen {model['seen']})"
+    if alls:
         exp = expected_row(model["all"])
         for k, v in exp.items():
-            if not same(fnum(rows["ALL"][k]), float(v)):
-                return f"ALL.{k}: tsv {rows['ALL'][k]} model {v}"
+            if not same(fnum(alls[0][k]), float(v)):
+                return f"ALL.{k}: tsv {alls[0][k]} model {v}"
     return None
+
+
+STDOUT_FIELDS = {"Variants in VCF": "variants", "Heterozygous": "heterozygous_variants", "Phased": "phased",
+                 "Unphased": "unphased", "Singletons": "singletons", "Blocks": "blocks", "Sum of sizes": "variant_per_block_sum",
+                 "Largest block": "variant_per_block_max", "Smallest block": "variant_per_block_min",
+                 "Sum of lengths": "bp_per_block_sum", "Longest block": "bp_per_block_max", "Shortest block": "bp_per_block_min",
+                 "Block NG50": "block_n50"}
+
+
+def parse_stdout(text):
+    """[(section name, {label: first number as printed})] of the human-readable report"""
+    out = []
+    for line in text.split("\n"):
+        m = re.match(r"^-+ (?:Chromosome (\S+)|(ALL) chromosomes \(aggregated\)) -+$", line)
+        if m:
+            out.append((m.group(1) or "ALL", {}))
+            continue
+        m = re.match(r"^\s*([A-Za-z][A-Za-z0-9 ]*?):\s+(\S+)", line)
+        if m and out and m.group(1) in STDOUT_FIELDS:
+            out[-1][1][m.group(1)] = m.group(2)
+    return out
 
 
 def run(ctx):
     wd = ctx.workdir()
     try:
         _run(ctx, wd)
+        if not ctx.replay:
+            functions(ctx)
     finally:
         shutil.rmtree(wd, ignore_errors=True)
 
@@ -261,18 +330,32 @@ def _run(ctx, wd):
     rng = ctx.rng
     if ctx.replay:
         cases = [json.load(open(ctx.replay))["case"]]
+        if cases[0].get("function"):
+            return functions(ctx, cases)
     else:
-        cases = [c for _, c in ctx.corpus()]
+        cases = [c for _, c in ctx.corpus() if not c.get("function")]
         n = (56 if ctx.quick else 500) * ctx.scale
         for i in range(n):
             cases.append(G.gen_case(rng, scale=1 if ctx.quick else rng.choice([1, 2, 4]), exotic=(i % 2 == 1)))
 
-    def execute(idx_case):
-        idx, case = idx_case
+    # input files (pysam.tabix_index is not known to be thread-safe: sequentially)
+    paths = []
+    for idx, case in enumerate(cases):
         d = os.path.join(wd, f"c{idx}")
         os.makedirs(d, exist_ok=True)
         vcf = os.path.join(d, "in.vcf")
         open(vcf, "w").write(G.vcf_text(case))
+        if case.get("indexed"):
+            vcf = pysam.tabix_index(vcf, preset="vcf", force=True)
+        if case.get("chr_lengths") is not None:
+            with open(os.path.join(d, "lengths.tsv"), "w") as f:
+                for n_, l_ in case["chr_lengths"]:
+                    f.write(f"{n_}\t{l_}\n")
+        paths.append((d, vcf))
+
+    def execute(idx_case):
+        idx, case = idx_case
+        d, vcf = paths[idx]
         tsv, bl, gtf = (os.path.join(d, n) for n in ("out.tsv", "out.blocks", "out.gtf"))
         args = ["stats", "--tsv", tsv, "--block-list", bl, "--gtf", gtf]
         if case["only_snvs"]:
@@ -281,8 +364,10 @@ def _run(ctx, wd):
             args += ["--chromosome", c]
         if case["sample"]:
             args += ["--sample", case["sample"]]
+        if case.get("chr_lengths") is not None:
+            args += ["--chr-lengths", os.path.join(d, "lengths.tsv")]
         rc, out, err, _ = sim.whatshap(args + [vcf], ctx.overlay)
-        res = {"rc": rc, "err": err, "tsv": parse_tsv(tsv), "bl": parse_block_list(bl), "gtf": parse_gtf(gtf)}
+        res = {"rc": rc, "err": err, "out": out, "tsv": parse_tsv(tsv), "bl": parse_block_list(bl), "gtf": parse_gtf(gtf)}
         shutil.rmtree(d, ignore_errors=True)
         return res
 
@@ -297,67 +382,86 @@ def _run(ctx, wd):
             ctx.dist("finding", key)
 
 
+F75 = "F75-chromosome-given-twice-is-counted-twice-with-an-index"
+
+
 def judge(ctx, case, res):
-    processed, seen = wanted_chromosomes(case)
-    variants = {}
-    for name, fm, fp in (("fix", True, True), ("cur", False, False), ("onlyF5", True, False), ("onlyF5b", False, True)):
-        variants[name] = ctx.model.ask_many([model_request(case, processed, fm, fp)])[0]
-    fix, cur = variants["fix"], variants["cur"]
-    if "error" in fix:
-        ctx.disagree("c12.stats", case, "input not accepted by the driver", fix)
+    head, fix = ctx.model.ask_many([model_request(case), model_request(case, dedup_given=True)])
+    if "error" in head or "error" in fix:
+        ctx.disagree("c12.run", case, "input not accepted by the driver", head)
         return
-    ctx.dist("kind", case["kind"]); ctx.dist("ploidy", case["ploidy"]); ctx.dist("chromosomes_processed", len(processed))
-    ctx.dist("options", "+".join(k for k in ("only_snvs", "chromosomes", "sample") if case[k]) or "plain")
+    given = given_chromosomes(case)
+    ctx.dist("kind", case["kind"]); ctx.dist("ploidy", case["ploidy"])
+    ctx.dist("options", "+".join(k for k in ("only_snvs", "chromosomes", "sample", "indexed", "chr_lengths") if case.get(k)) or "plain")
     ctx.dist("records", min(len(case["records"]), 60) // 10 * 10)
-    specs = {c: spec_chrom(case, c) for c in processed}
-    # ---- rejected input (unsorted): the reader parses every chromosome it passes, also those --chromosome skips
-    probe = fix if seen == processed else ctx.model.ask_many([model_request(case, seen, True, True)])[0]
-    if probe.get("err") == "VcfNotSortedError":
-        ctx.dist("outcome", "rejected-unsorted")
-        if res["rc"] == 0 or err_class(res["err"]) != "VcfNotSortedError":
-            ctx.disagree("c12.stats", case, {"rc": res["rc"], "raised": err_class(res["err"])}, fix)
+    ctx.dist("header_lengths", "all" if all(l is not None for l in case["contigs"].values()) else "some-missing")
+    if given:
+        ctx.dist("given", ("indexed" if case.get("indexed") else "plain") + ("+dup" if len(set(given)) < len(given) else "")
+                 + ("+unknown" if any(c not in case["contigs"] for c in given) else ""))
+    # ---- rejected input: unsorted chromosome reached by the reader, unknown contig fetched through the index
+    if head.get("err") in ("VcfNotSortedError", "VcfInvalidChromosome"):
+        ctx.dist("outcome", "rejected-" + head["err"])
+        if res["rc"] == 0 or err_class(res["err"]) != head["err"]:
+            ctx.disagree("c12.run", case, {"rc": res["rc"], "raised": err_class(res["err"])}, head)
+        elif head["err"] == "VcfInvalidChromosome" and expected_chromosomes(case) is not None:
+            ctx.disagree("c12.run", case, "VcfInvalidChromosome although every given chromosome is in the header", head)
         return
-    # which known defect could explain a difference between HEAD and the repaired model on this input
-    f5 = json.dumps(cur, sort_keys=True) != json.dumps(variants["onlyF5"], sort_keys=True)
-    f5b = json.dumps(cur, sort_keys=True) != json.dumps(variants["onlyF5b"], sort_keys=True)
-    label = "+".join(n for n, on in (("F5-missing-genotype-counted-heterozygous", f5),
-                                     ("F5b-phased-call-without-PS-value-is-block-None", f5b)) if on)
     if res["rc"] != 0:
         ec = err_class(res["err"])
         ctx.dist("outcome", "crash-" + ec)
-        if cur.get("err") == ec and f5b:
-            ctx.fail(f"F5b: `whatshap stats --block-list` fails with {ec}: a phased heterozygous call whose PS value is '.' gets "
-                     "block id None, which cannot be sorted with the integer ids", case,
-                     key="F5b-phased-call-without-PS-value-is-block-None")
-        else:
-            ctx.fail(f"`whatshap stats` fails with {ec}: {res['err'].strip().splitlines()[-1][:160]}", case, key=f"stats-raises-{ec}")
-            ctx.disagree("c12.stats", case, {"raised": ec}, "ok")
+        ctx.fail(f"`whatshap stats` fails with {ec}: {res['err'].strip().splitlines()[-1][:160]}", case, key=f"stats-raises-{ec}")
+        ctx.disagree("c12.run", case, {"raised": ec}, "ok")
         return
     ctx.dist("outcome", "ok")
     if res["tsv"] is None or res["bl"] is None or res["gtf"] is None:
         ctx.fail("an output file was not written", case, key="output-missing")
         return
-    rows = {r["chromosome"]: r for r in res["tsv"]}
     # ---- correspondence
-    d_fix = diff_model(fix, res, processed)
-    d_cur = diff_model(cur, res, processed) if d_fix else None
-    is_head_defect = d_fix is not None and d_cur is None and label
-    if d_fix is not None and not is_head_defect:
-        ctx.disagree("c12.stats", case, {"first_difference_to_repaired_model": d_fix, "to_model_of_HEAD": d_cur}, "see implementation")
+    d_head = diff_model(head, res)
+    d_fix = diff_model(fix, res) if d_head is not None or head != fix else None
+    label = None
+    if head != fix and d_head is None:
+        label = F75
+    elif d_head is not None and d_fix is not None:
+        # an older defect? (F5 / F5b, fixed in /repo): ask the models without those repairs
+        old = ctx.model.ask_many([model_request(case, False, False), model_request(case, True, False), model_request(case, False, True)])
+        if diff_model(old[0], res) is None:
+            f5 = old[0] != old[1]
+            f5b = old[0] != old[2]
+            label = "+".join(n for n, on in (("F5-missing-genotype-counted-heterozygous", f5),
+                                             ("F5b-phased-call-without-PS-value-is-block-None", f5b)) if on) or None
+        if label is None:
+            ctx.disagree("c12.run", case, {"first_difference_to_model_of_HEAD": d_head, "to_model_with_F75_patch": d_fix}, "see implementation")
+    processed = [mc["name"] for mc in head["chroms"]]
+    ctx.dist("chromosomes_processed", len(processed))
+    ctx.dist("all_row", "yes" if head["all"] is not None else "no")
 
     def fail(what, key):
-        if is_head_defect:
+        if label and label != F75:
             ctx.fail(f"{label}: {what}", case, key=label)
         else:
             ctx.fail(what, case, key=key)
 
     # ---- oracle
+    rows_list = [r for r in res["tsv"] if r["chromosome"] != "ALL"]
+    all_rows = [r for r in res["tsv"] if r["chromosome"] == "ALL"]
+    reported = [r["chromosome"] for r in rows_list]
+    expected = expected_chromosomes(case)
+    if len(set(reported)) < len(reported):
+        ctx.fail(f"chromosome rows {reported}: a chromosome named twice with --chromosome is fetched, reported and added to the "
+                 f"ALL row twice when the VCF is indexed (ALL.variants = {all_rows[0]['variants'] if all_rows else '-'})", case, key=F75)
+    elif reported != expected:
+        fail(f"chromosome rows {reported}, the file's wanted chromosomes are {expected}", "chromosome-rows")
+    # a record whose ALT equals REF is not a variant (VCF: ALT = non-reference alleles); the reader's --only-snvs filter keeps
+    # it (one base against one base) while is_snv() says no: for such chromosomes only the model is compared under --only-snvs
+    malformed = {r["chrom"] for r in case["records"] if r["alts"] == [r["ref"]]}
+
+    def degenerate(c):
+        return c in malformed and case["only_snvs"]
+    specs = {c: spec_chrom(case, c) for c in set(reported)}
     nontrivial = False
-    for c in processed:
-        if c not in rows:
-            fail(f"no row for processed chromosome {c}", "row-missing")
-            continue
-        r, s = rows[c], specs[c]
+    for r in rows_list:
+        c, s = r["chromosome"], specs[r["chromosome"]]
         v = {k: int(r[k]) for k in INT_FIELDS}
         nontrivial |= v["blocks"] > 0
         if v["phased"] + v["unphased"] + v["singletons"] != v["heterozygous_variants"]:
@@ -366,29 +470,118 @@ def judge(ctx, case, res):
         if v["variant_per_block_sum"] != v["phased"]:
             fail(f"{c}: sum of block sizes {v['variant_per_block_sum']} != phased {v['phased']}", "block-sizes-sum")
         for k in ("variants", "heterozygous_variants", "heterozygous_snvs", "phased", "unphased", "singletons", "blocks", "phased_snvs"):
-            if v[k] != s[k]:
+            if v[k] != s[k] and not degenerate(c):
                 fail(f"{c}: {k} = {v[k]}, independent count over the file = {s[k]}", "count-" + k)
-        bl = sorted(res["bl"].get(c, []), key=lambda t: (t[0] is None, t[0] or 0))
-        if bl != s["block_list"]:
+        copies = reported.count(c)
+        bl_c = res["bl"].get(c, [])
+        bl = sorted(bl_c, key=lambda t: (t[0] is None, t[0] or 0))
+        if bl != sorted(s["block_list"] * copies) and not degenerate(c):
             fail(f"{c}: block list {bl[:6]} != phase sets of the file {s['block_list'][:6]}", "block-list")
-        if sum(n for _, _, _, n in res["bl"].get(c, []) if n > 1) != v["phased"]:
+        if [list(x) for x in res["gtf"].get(c, [])] != s["gtf"] * copies and not degenerate(c):
+            fail(f"{c}: GTF features {res['gtf'].get(c, [])[:6]} != maximal runs of the file's phased calls {s['gtf'][:6]}", "gtf-rows")
+        if sum(n for _, _, _, n in bl_c if n > 1) != v["phased"] * copies:
             fail(f"{c}: block-list sizes > 1 do not sum to phased", "block-list-sum")
-        naive = sum(b - a for _, a, b, n in res["bl"].get(c, []) if n > 1)
+        naive = sum(b - a for _, a, b, n in bl_c if n > 1) // copies
         if v["blocks"]:
             ctx.dist("blocks_per_chromosome", min(v["blocks"], 5))
             ctx.dist("pieces_shorter_than_blocks", naive > v["bp_per_block_sum"])
-        if v["bp_per_block_sum"] > s["union_span"]:
+            ctx.dist("block_n50", "nan" if r["block_n50"] == "nan" else ("0" if float(r["block_n50"]) == 0 else "positive"))
+        if v["bp_per_block_sum"] > s["union_span"] and not degenerate(c):
             fail(f"{c}: sum of block lengths {v['bp_per_block_sum']} exceeds the covered span {s['union_span']}", "length-sum-exceeds-span")
-    if len(processed) >= 2 and "ALL" not in rows:
+    if len(set(reported)) >= 2 and not all_rows:
         fail("no ALL row although several chromosomes were processed", "all-row-missing")
-    if "ALL" in rows:
+    if all_rows:
         for k in INT_FIELDS:
-            tot = sum(int(rows[c][k]) for c in processed if c in rows)
-            if int(rows["ALL"][k]) != tot:
-                fail(f"ALL.{k} = {rows['ALL'][k]} != sum of the chromosome rows {tot}", "all-row-not-sum")
+            tot = sum(int(r[k]) for r in rows_list)
+            if int(all_rows[0][k]) != tot:
+                fail(f"ALL.{k} = {all_rows[0][k]} != sum of the chromosome rows {tot}", "all-row-not-sum")
+    # ---- the human-readable report says the same as the TSV
+    sections = parse_stdout(res["out"])
+    if [n for n, _ in sections] != [r["chromosome"] for r in res["tsv"]]:
+        fail(f"stdout sections {[n for n, _ in sections]} != tsv rows {[r['chromosome'] for r in res['tsv']]}", "stdout-sections")
+    else:
+        for (name, vals), r in zip(sections, res["tsv"]):
+            for lab, k in STDOUT_FIELDS.items():
+                want = "nan" if r[k] == "nan" else str(int(round(float(r[k]))))
+                if vals.get(lab) != want:
+                    fail(f"stdout {name} '{lab}' = {vals.get(lab)} but tsv {k} = {r[k]}", "stdout-differs-from-tsv")
     if nontrivial:
         ctx.nontrivial(json.dumps(case, sort_keys=True))
     ctx.validated()
     if len(ctx.samples) < 3 and nontrivial and len(case["records"]) <= 8:
         ctx.sample({"records": [[r["chrom"], r["pos"], r["ref"], r["alts"], r["format"], r["calls"]] for r in case["records"]],
-                    "tsv": {c: {k: rows[c][k] for k in INT_FIELDS} for c in rows}, "block_list": res["bl"]})
+                    "tsv": {r["chromosome"]: {k: r[k] for k in INT_FIELDS} for r in res["tsv"]}, "block_list": res["bl"]})
+
+
+# ------------------------------------------------------------------------------------------------
+# functions called in-process
+# ------------------------------------------------------------------------------------------------
+
+def n50_defining_property(lengths, target, r):
+    """the statement of Props.C12.n50_spec, evaluated independently"""
+    if not lengths or 2 * sum(lengths) < target:
+        return r == 0
+    ge = sum(l for l in lengths if l >= r)
+    gt = sum(l for l in lengths if l > r)
+    return r in lengths and 2 * ge >= target and (2 * gt < target or gt == 0)
+
+
+def functions(ctx, cases=None):
+    import logging
+    from whatshap.cli import stats as S
+    logging.getLogger("whatshap.cli.stats").setLevel(logging.ERROR)
+    rng = ctx.rng
+    if cases is None:
+        cases = [c for _, c in ctx.corpus() if c.get("function")]
+        for _ in range((300 if ctx.quick else 3000) * ctx.scale):
+            kind = rng.choice(["n50", "n50", "unpack", "ng50"])
+            if kind == "n50":
+                n = rng.choice([0, 1, 2, 3, 5, 8])
+                lengths = [rng.choice([0, 1, 2, 3, 5, 8, 13, 100]) for _ in range(n)]
+                target = rng.choice([None, 0, 1, sum(lengths), 2 * sum(lengths), 2 * sum(lengths) + 1, rng.randrange(0, 40),
+                                     2 * sum(lengths[:n // 2]), 2 * sum(sorted(lengths)[n // 2:])])
+                cases.append({"function": "n50", "lengths": lengths, "target": target})
+            elif kind == "unpack":
+                args = [rng.choice(["", ",", "chr1", "chr1,chr2", "chr2,,chr1", ",chr3,", "a b,c", "chr1,chr1"])
+                        for _ in range(rng.randrange(0, 4))]
+                cases.append({"function": "unpack", "args": args})
+            else:
+                names = ["c1", "c2", "c3"]
+                blocks = [[rng.choice(names), rng.randrange(0, 50)] for _ in range(rng.randrange(0, 6))]
+                lens = [[rng.choice(names + ["zz"]), rng.randrange(0, 120)] for _ in range(rng.randrange(0, 5))]
+                cases.append({"function": "ng50", "blocks": blocks, "lens": lens})
+    for case in cases:
+        ctx.evaluated()
+        kind = case["function"]
+        ctx.dist("function", kind)
+        if kind == "n50":
+            lengths, target = case["lengths"], case["target"]
+            impl = S.n50(list(lengths), target)
+            t = sum(lengths) if target is None else target
+            model = ctx.model.ask_many([{"op": "c12.n50", "lengths": lengths, "target": t}])[0]
+            if impl != model:
+                ctx.disagree("c12.n50", case, impl, model)
+            if not n50_defining_property(lengths, t, impl):
+                ctx.fail(f"n50({lengths}, {target}) = {impl} is not the length at which the lengths, largest first, reach half of the target",
+                         case, key="n50-not-the-half-way-length")
+            ctx.dist("n50", "zero" if impl == 0 else ("largest" if impl == max(lengths) else "inner"))
+        elif kind == "unpack":
+            impl = S.unpack_chromosomes(list(case["args"]))
+            model = ctx.model.ask_many([{"op": "c12.unpack", "args": case["args"]}])[0]
+            if impl != model:
+                ctx.disagree("c12.unpack", case, impl, model)
+        else:
+            class B:
+                def __init__(self, c, sp):
+                    self.chromosome, self._sp = c, sp
+
+                def span(self):
+                    return self._sp
+            d = {}
+            for n_, l_ in case["lens"]:
+                d[n_] = l_
+            impl = S.compute_ng50([B(c, sp) for c, sp in case["blocks"]], d)
+            model = ctx.model.ask_many([{"op": "c12.ng50", "lens": case["lens"], "blocks": case["blocks"]}])[0]
+            if (None if isinstance(impl, float) and math.isnan(impl) else impl) != model:
+                ctx.disagree("c12.ng50", case, impl, model)
+            ctx.dist("ng50", "nan" if model is None else "number")
